@@ -41,9 +41,7 @@ Definition api (ask : string -> list val -> val) : list api_entry :=
   let hmac256 := o_hmac_sha256 ask in
   let pbkdf2 := o_pbkdf2_sha512 ask in
   let sha512 := o_sha512 ask in
-  (* the Khovratovich-Law derivator as the property demands it (Model/C14b.v): equal to Bip32Kholaw.kh_derivator on every
-     parent key with kL + 2^227 <= 2^256, Bip32KeyError where that one overflows *)
-  let kh_der := C14b.kh_derivator_conformant pt e_mul e_base e_is_zero e_enc in
+  let kh_der := Bip32Kholaw.kh_derivator pt e_mul e_base e_is_zero e_enc in
   let by_der := ByronLegacyDeriv.by_derivator pt e_mul e_base e_is_zero e_enc in
   (* scheme 0 Bip32KholawEd25519, 1 CardanoIcarusBip32, 2 CardanoByronLegacyBip32 *)
   let kh_start (scheme : N) (seed : list N) : res Bip32Kholaw.node :=
